@@ -2,6 +2,7 @@ package props
 
 import (
 	"encoding/json"
+	"errors"
 	"flag"
 	"fmt"
 	"os"
@@ -103,6 +104,17 @@ func runRapid[C any](t *testing.T, rec *evid.Recorder, name string, n int, gen f
 	})
 	rec.Label("rapid_cases_requested:"+name, int64(n))
 	rec.Label("rapid_cases_run:"+name, int64(done))
+}
+
+// releaseArg gives the argument for the i-th mid-stream Release of a history: bufiox documents it as "the error
+// the release may depend on"; whether it is nil or not must not change what happens to unread data.
+var errReleaseReason = errors.New("release reason (any error)")
+
+func releaseArg(i int) error {
+	if i%2 == 1 {
+		return errReleaseReason
+	}
+	return nil
 }
 
 // parallelFor runs body(i) for i in [0,n) restricted to this shard, on several goroutines.
